@@ -340,6 +340,13 @@ def unit_text(r, dim, bad=None):
 def wrong_dim(r, dim, k_order=None):
     """a dimension different from `dim`; for rate constants mostly the dimension of another order"""
     dim = tuple(dim)
+    if r.random() < 0.3:
+        # a near miss: the right dimension with one exponent (or two) off by one
+        d = list(dim)
+        for i_ in r.sample(range(3), r.choice([1, 1, 2])):
+            d[i_] += r.choice([-1, 1])
+        if tuple(d) != dim and any(d):
+            return tuple(d)
     if k_order is not None and r.random() < 0.65:
         return gen.K_DIM(r.choice([o for o in range(0, 5) if o != k_order]))
     return r.choice([d for d in DIMPOOL if tuple(d) != dim])
